@@ -408,7 +408,7 @@ def run_check(pid, tier, seed, replay=None):
         import concurrent.futures
         def run_cases(cf):
             with Slot():
-                p = subprocess.run(["sh", "-c", "ulimit -s unlimited 2>/dev/null || ulimit -s 4000000 2>/dev/null; exec \"$@\"", "sh",
+                p = subprocess.run(["sh", "-c", "ulimit -s unlimited 2>/dev/null || ulimit -s 4000000 2>/dev/null; ulimit -v %d 2>/dev/null; exec \"$@\"" % int(tcfg.get("cases_mem_kb", 16000000)), "sh",
                                     "timeout", str(int(tcfg.get("cases_timeout", 900))), "coqc"] + COQFLAGS + [cf],
                                    cwd=rundir, stdout=subprocess.PIPE, stderr=subprocess.STDOUT, text=True)
             return cf, p.returncode, p.stdout
